@@ -263,6 +263,10 @@ def contains(container, item):
     if isinstance(item, Hole) and isinstance(container, (list, tuple, set, frozenset, dict)) \
             and all(isinstance(x, str) for x in container) and not (isinstance(container, (list, tuple)) and has_seg(container)):
         return bind_hole(item, list(container)) is not None
+    if isinstance(container, range) and isinstance(item, SInt):
+        if container.step == 1:
+            return mk_bool(z3.And(item.t >= container.start, item.t < container.stop))
+        raise Unsupported("`in` on a range with a step")
     if isinstance(container, STRLIKE) and isinstance(item, str) and is_symstr(container):
         return t_contains(item, container)
     if isinstance(container, Opaque):
